@@ -354,11 +354,13 @@ pub fn record(acts: &[Act], cfg: DBConfig) -> Option<Recorded> {
         acked_ok.push(ok);
     }
     let raw = io_tap::take();
-    // the handle is leaked on purpose: Drop would checkpoint, but the tap is already disarmed so nothing it does is seen
-    for (_, (se, _, _)) in sessions {
-        std::mem::forget(se);
-    }
-    std::mem::forget(db);
+    // The tap is disarmed: whatever the handles do when they go away (implicit rollbacks, the closing checkpoint) is
+    // not part of the recorded stream. They are dropped, not leaked: a leaked database keeps its worker threads, and
+    // the thorough tier records hundreds of histories per process.
+    let _ = std::panic::catch_unwind(std::panic::AssertUnwindSafe(move || {
+        drop(sessions);
+        drop(db);
+    }));
     let _ = take_panics();
     let mut evs = vec![];
     let mut muts = vec![];
